@@ -4,6 +4,9 @@
 // with -D_GLIBCXX_ASSERTIONS so that a precondition violation of std::atomic is caught) and FA (FIBER + UBSan).
 //
 //   h_c19 <cases-file>
+//   h_c19 --sweep8      exhaustive: int8_t and uint8_t, every operation, every (stored value, argument) pair (and
+//                       every (stored, expected) x 2 desired x spurious? for the compare_exchange forms): one JSON
+//                       line per (type, operation, cv-overload) with the number of mismatches and the first one
 // Every line of the file is one case:   <id> <type> <init> <nops> { <op> <vol> <spur> <mo> <a1> <a2> }*
 //   type  b i8 u8 i16 u16 i32 u32 i64 u64 p4 (int*) p8 (double*) f32 f64 flag
 //   values: decimal (two's complement as written for the type); floats: the bit pattern; pointers: byte offset
@@ -423,6 +426,49 @@ void Dispatch(const Case& c) {
   else std::printf("{\"id\":%ld,\"ops\":[],\"err\":\"unknown type\"}\n", c.id);
 }
 
+template <typename T>
+void Sweep8(const char* tname) {
+  static const char* kOps[] = {"store", "load", "conv", "xchg", "fadd", "fsub", "adda", "suba", "fand", "for", "fxor", "anda",
+                               "ora", "xora", "preinc", "postinc", "predec", "postdec", "cew1", "cew2", "ces1", "ces2"};
+  const int lo = std::is_signed_v<T> ? -128 : 0;
+  for (const char* name : kOps) {
+    const std::string n = name;
+    const bool cas = n[0] == 'c' && n[1] == 'e';
+    const bool incdec = n == "preinc" || n == "postinc" || n == "predec" || n == "postdec";
+    for (int vol = 0; vol < (incdec ? 1 : 2); ++vol) {
+      long checked = 0, bad = 0;
+      std::string first;
+      for (int v = lo; v < lo + 256; ++v) {
+        for (int a = lo; a < lo + 256; ++a) {
+          for (int k = 0; k < (cas ? 4 : 1); ++k) {
+            Op op;
+            op.name = n;
+            op.vol = vol;
+            op.spur = k & 1;
+            op.mo = cas && n[3] == '2' ? 6 + 8 * 6 : 0;
+            op.a1 = std::to_string(a);
+            op.a2 = std::to_string((k & 2) ? (v ^ 0x55) : 7);
+            yaclib_std::atomic<T> y(static_cast<T>(v));
+            std::atomic<T> s(static_cast<T>(v));
+            Out oy, os;
+            Apply<T, true>(y, op, oy);
+            Apply<T, false>(s, op, os);
+            ++checked;
+            if (oy.ret != os.ret || oy.exp != os.exp || y.load() != s.load() || !oy.err.empty()) {
+              if (bad++ == 0) {
+                first = std::string("1 ") + tname + " " + std::to_string(v) + " 1 " + n + " " + std::to_string(vol) + " " +
+                        std::to_string(op.spur) + " " + std::to_string(op.mo) + " " + op.a1 + " " + op.a2;
+              }
+            }
+          }
+        }
+      }
+      std::printf("{\"sweep\":\"%s\",\"op\":\"%s\",\"vol\":%d,\"checked\":%ld,\"mismatches\":%ld,\"first\":\"%s\"}\n", tname, name,
+                  vol, checked, bad, first.c_str());
+    }
+  }
+}
+
 }  // namespace
 
 int main(int argc, char** argv) {
@@ -436,6 +482,12 @@ int main(int argc, char** argv) {
   std::signal(SIGFPE, OnCrash);
   std::signal(SIGILL, OnCrash);
   std::signal(SIGBUS, OnCrash);
+  if (std::string(argv[1]) == "--sweep8") {
+    Sweep8<std::int8_t>("i8");
+    Sweep8<std::uint8_t>("u8");
+    std::fflush(stdout);
+    return 0;
+  }
   std::ifstream in(argv[1]);
   std::string ln;
   long cases = 0;
